@@ -144,3 +144,56 @@ From FG Require TimeCtl.
 Theorem C13_model_constants_dumped :
   Z.of_nat TimeCtl.MaxDepth = c_max_depth.
 Proof. exact ConstTie.timectl_constants_dumped. Qed.
+
+(* tie to the source: every statement pattern the model transcribes and that no hook can feed from outside is still
+   recognised, in order, in /repo's current source (gen/Sites_gen.v is regenerated on every run by tools/sites.py):
+   extra time (run resets it, setupSearchLimits zeroes it, the only addExtraTime call is `addExtraTime(2.0)` guarded by
+   hadBookMove && TimeControl && MoveTime == 0 before the depth loop, the cap by the mover's clock), the depth loop, the
+   searchmoves filter, the five nodesVisited++ statements with the stop check after every child, the 5 ms timer poll *)
+From FG.gen Require Import Sites_gen.
+Theorem C13_sites_recognised : forallb (fun b => b) sites_C13 = true.
+Proof. vm_compute. reflexivity. Qed.
+
+(* the extra-time checker of the correspondence stream budget_model_vs_hook (c13-grid: hook VerifAddExtraTime and real
+   depth-1 searches with the hadBookMove flag set through VerifSetHadBookMove) accepts only what the model computes *)
+Theorem C13_extra_case_ok_sound :
+  forall (mt wt bt : Z) (stm : N) (limit : Z) (hb : bool) (sl se hl he : Z),
+         extra_case_ok mt wt bt stm limit hb sl se hl he = true ->
+         sl = limit /\ hl = limit /\
+         deadline hb true mt limit (extra_clock wt bt stm) = Some (sl + se) /\
+         add_extra_time c10 true mt limit 0 (extra_clock wt bt stm) = Some he.
+Proof.
+  intros mt wt bt stm limit hb sl se hl he H. unfold extra_case_ok in H.
+  repeat (apply andb_prop in H; destruct H as [H ?]).
+  destruct (deadline hb true mt limit (extra_clock wt bt stm)) as [d|]; [|discriminate].
+  destruct (add_extra_time c10 true mt limit 0 (extra_clock wt bt stm)) as [e|]; [|discriminate].
+  repeat match goal with
+         | [ X : (_ && _)%bool = true |- _ ] => apply andb_prop in X; destruct X
+         end.
+  repeat match goal with
+         | [ X : (_ =? _) = true |- _ ] => apply Z.eqb_eq in X
+         end.
+  subst. repeat split; reflexivity.
+Qed.
+
+(* the clock bound of C13_extra_time_le_clock, restated for the engine's observations: an accepted case whose budget is
+   within the mover's clock has its deadline (time limit + extra time the timer polls) within that clock *)
+Theorem C13_extra_case_ok_within_clock :
+  forall (mt wt bt : Z) (stm : N) (limit : Z) (hb : bool) (sl se hl he : Z),
+         extra_case_ok mt wt bt stm limit hb sl se hl he = true ->
+         0 <= limit <= extra_clock wt bt stm ->
+         limit <= sl + se <= extra_clock wt bt stm.
+Proof.
+  intros mt wt bt stm limit hb sl se hl he H [H0 H1]. unfold extra_case_ok in H.
+  apply andb_prop in H; destruct H as [H _].
+  apply andb_prop in H; destruct H as [_ H].
+  destruct (deadline hb true mt limit (extra_clock wt bt stm)) as [d|]; [|discriminate].
+  apply andb_prop in H; destruct H as [Hd H].
+  apply Z.eqb_eq in Hd. subst d.
+  apply Z.leb_le in H0. apply Z.leb_le in H1. rewrite H0, H1 in H. simpl in H.
+  apply andb_prop in H; destruct H as [Ha Hb]. apply Z.leb_le in Ha. apply Z.leb_le in Hb. lia.
+Qed.
+
+Print Assumptions C13_sites_recognised.
+Print Assumptions C13_extra_case_ok_sound.
+Print Assumptions C13_extra_case_ok_within_clock.
